@@ -315,5 +315,7 @@ def run(ck: Checker) -> None:
     ck.guard("R-TYPES-CACHE", lambda: T.r_types_cache(ck))  # ... of the fields the class itself declares
     ck.guard("R-REINSTALL", lambda: T.r_reinstall(ck))
     ck.guard("R-ENUM-SHAPE", lambda: T.r_enum_shape(ck))
+    from . import state_rules as S
+    ck.guard("R-FULLTRAV", lambda: S.r_pruned_walk(ck, "R-FULLTRAV", [(NODE, "_eq_fn")], "== compares the origins at every position"))
     ck.require_count("R-EQ-FORM", 2)
     ck.require_count("R-FULLTRAV", 1)
